@@ -284,54 +284,13 @@ theorem whitespace_compile (ls : List (Rule × Bytes)) (hl : ∀ x ∈ ls, Lexem
 
 /-! Non-vacuity of G2 on concrete bytes -/
 
-section Examples
-private theorem lxX : Lexeme .rIdent [120] := Lexeme.word 120 [] [] (by decide) (by decide) (Or.inl rfl)
-private theorem lxG : Lexeme .rIdent [103] := Lexeme.word 103 [] [] (by decide) (by decide) (Or.inl rfl)
-private theorem lxBar : Lexeme .rAny [124] := Lexeme.punct 124 (by decide)
-private theorem lxComma : Lexeme .rAny [44] := Lexeme.punct 44 (by decide)
-private theorem lxF : Lexeme .rKeyword [102, 58] := Lexeme.keyword 102 [] [] (by decide) (by decide) (Or.inl rfl)
-private theorem lx1 : Lexeme .rInt [49] := Lexeme.int [] [49] (Or.inl rfl) (by decide) (by decide)
-private theorem lx2 : Lexeme .rInt [50] := Lexeme.int [] [50] (Or.inl rfl) (by decide) (by decide)
-
-/-- the lexemes of `x | f: 1, 2 | g` -/
-private def exLexemes : List (Rule × Bytes) :=
-  [(.rIdent, [120]), (.rAny, [124]), (.rKeyword, [102, 58]), (.rInt, [49]), (.rAny, [44]), (.rInt, [50]),
-   (.rAny, [124]), (.rIdent, [103])]
-
-private theorem exLexemes_ok : ∀ x ∈ exLexemes, Lexeme x.1 x.2 := by
-  intro x hx
-  simp only [exLexemes, List.mem_cons, List.mem_nil_iff, or_false] at hx
-  rcases hx with rfl | rfl | rfl | rfl | rfl | rfl | rfl | rfl
-  · exact lxX
-  · exact lxBar
-  · exact lxF
-  · exact lx1
-  · exact lxComma
-  · exact lx2
-  · exact lxBar
-  · exact lxG
-
-private theorem exSepF : Separators (fun i => if i = 0 then [] else [32]) :=
-  ⟨fun i => by dsimp only; split <;> rfl, fun i hi => by simp [Nat.ne_of_gt hi]⟩
-
-private theorem exSepG : Separators (fun i => [[9], [10], [13, 10], [32, 32], [32], [32], [11], [12]].getD i [32]) :=
-  ⟨fun i => by rcases i with _|_|_|_|_|_|_|_|i <;> rfl, fun i _ => by rcases i with _|_|_|_|_|_|_|_|i <;> simp⟩
-
 /-- `x | f: 1 , 2 | g` and `\tx\n|\r\nf:  1 , 2\v|\fg \n` (every blank byte of the scanner) parse alike -/
 example : parseExprSource [120, 32, 124, 32, 102, 58, 32, 49, 32, 44, 32, 50, 32, 124, 32, 103] =
     parseExprSource [9, 120, 10, 124, 13, 10, 102, 58, 32, 32, 49, 32, 44, 32, 50, 11, 124, 12, 103, 32, 10] :=
   (whitespace_between_lexemes exLexemes exLexemes_ok _ _ [] [32, 10] exSepF exSepG rfl rfl).1
 
-/-- lexemes may touch where they `fit`: `x|f:1,2|g` is well spaced without any whitespace … -/
-private def exTight : List Piece :=
-  [⟨[], .rIdent, [120]⟩, ⟨[], .rAny, [124]⟩, ⟨[], .rKeyword, [102, 58]⟩, ⟨[], .rInt, [49]⟩, ⟨[], .rAny, [44]⟩,
-   ⟨[], .rInt, [50]⟩, ⟨[], .rAny, [124]⟩, ⟨[], .rIdent, [103]⟩]
-
-private theorem exTight_ok : WellSpaced (exTight ++ [semiPiece []]) :=
-  ⟨rfl, lxX, rfl, rfl, lxBar, rfl, rfl, lxF, rfl, rfl, lx1, rfl, rfl, lxComma, rfl, rfl, lx2, rfl, rfl, lxBar, rfl,
-   rfl, lxG, rfl, rfl, lexeme_semi, rfl, trivial⟩
-
-/-- … and parses like the spaced text -/
+/-- lexemes may touch where they `fit`: `x|f:1,2|g` is well spaced without any whitespace (`exTight_ok`) …
+    … and parses like the spaced text -/
 example : parseExprSource [120, 124, 102, 58, 49, 44, 50, 124, 103] =
     parseExprSource [120, 32, 124, 32, 102, 58, 32, 49, 32, 44, 32, 50, 32, 124, 32, 103] :=
   (same_lexemes_same_parse exTight (layoutFrom (fun i => if i = 0 then [] else [32]) 0 exLexemes) [] [] rfl exTight_ok
@@ -389,7 +348,6 @@ example : fits .rInt [49] [46, 46, 53, 41] = true ∧ fits .rInt [49] [46, 53] =
     parseExprSource [40, 49, 46, 46, 53, 41] = .ok (.range (.lit (.int .int 1)) (.lit (.int .int 5))) ∧
     parseExprSource [40, 49, 32, 46, 46, 32, 53, 41] = .ok (.range (.lit (.int .int 1)) (.lit (.int .int 5))) :=
   ⟨rfl, rfl, rfl, rfl⟩
-end Examples
 
 /-! ## G3. A pipeline is its steps, one at a time through `assign` — at render level
 
@@ -553,8 +511,6 @@ theorem obj_nil_prints_nothing (c : RCtx) (line : Nat) (e : Expr) (s : RS)
   unfold renderNode
   simp [wrapFailAt, M.mapFail, bind, M.bind, M.getEnv, M.ofRes, h, pure, M.pure, Prog.bind, GoVal.isNil, hs, ho,
     writeAllM, Prog.mapFail]
-
-theorem stdOut_nil : stdOut.chunks .nil = .ok [] := rfl
 
 /-- **C08 (strict variables: only the final value).** In strict-variables mode an object fails with the
     undefined-variable error exactly when its FINAL value is nil (`strict_undefined`, Proofs/C07.lean); when
